@@ -233,6 +233,14 @@ fn main() {
                 }
             }
         }
+        // optimisation only (the verdict is computed by the caller): once the program is not where the
+        // script assumes, the remaining requests are not sent
+        let mut diverged = false;
+        if fail.is_none() && is_run && !st["expect"].is_null() {
+            let line = if !stop.is_null() { stop["line"].as_i64() } else { probe["top"]["line"].as_i64() };
+            let gone = exited || (stopped.is_none() && probe["threads"].as_array().map(|a| a.is_empty()).unwrap_or(false));
+            diverged = if st["expect"] == "exit" { !gone } else { gone || line != st["expect"].as_i64() };
+        }
         steps_out.push(json!({"cmd": cmd, "success": resp["success"], "message": resp["message"],
             "body": resp["body"], "events": events, "stop": stop, "probe": probe,
             "extra_responses": extra_responses}));
@@ -242,6 +250,9 @@ fn main() {
             } else {
                 format!("session_ended: {}", ended.lock().unwrap().clone().unwrap_or_default())
             };
+            break 'outer;
+        }
+        if diverged {
             break 'outer;
         }
     }
